@@ -23,7 +23,7 @@ package auth
 //@       (path.IsAbs(res) && len(u.privileges) > 0 && nearestOK(u.privileges, path.Clean(res), priv))
 
 //@ func (User).AuthorizeAction
-//@   props C20 C05
+//@   props C20
 //@   requires 0 <= action.Privilege && action.Privilege < 32
 //@   requires forall k string :: has(u.privileges, k) ==> 0 <= u.privileges[k] && u.privileges[k] < 32
 //@   modifies nothing
